@@ -12,7 +12,7 @@ CLAIMED = {
             "map orders, order independence, and iff-characterisations of username / invite / error results; instantiated on the host list "
             "regenerated from the tree. The model is tied to the code by a differential run of the extracted model against deeplinks.Resolve on "
             "tens of thousands of structured and random links per run.",
-            "DESIGN.md section 8 (C20)",
+            "DESIGN.md section 8 (C20: plan) and section 11.4 / 11.6 (as built)",
             "Trusted: Coq kernel; extraction (ExtrOcamlBasic) + OCaml driver; Go harness. url.Parse output is an oracle (standard library), "
             "strings.ToLower a section variable; URL.Hostname port stripping is re-implemented in the model and compared. Theorems closed under the global context.",
             "machine-checked proof in Coq + model/implementation correspondence (extracted OCaml vs Go)"),
@@ -21,20 +21,20 @@ CLAIMED = {
 CLAIMED["C17"] = ("proof",
     "Coq theorems over a table-generic Gallina model of TryExpandError / RpcErrorToNative / the tryToProcessErr decision: totality (no panic) for every text, "
     "parameter extraction and X-substitution for every row of any table passing the decidable table_ok, plain delivery of absent / non-numeric / out-of-range "
-    "parameters, description lookup with one verb, the PHONE_MIGRATE decision; instantiated by vm_compute on the tables regenerated from the tree on every run. "
+    "parameters, description lookup with one verb, the PHONE_MIGRATE decision; one caller's reconnect-and-repeat (C17_live_migrate); the migration protocol of the repaired code as a transition system over K callers (Misc/Migrate.v): mutual exclusion, one connection per target however many callers were redirected, request accounting, deadlock freedom, and termination with every caller holding its own answer when the targets serve (C17_concurrent_migrate_*); instantiated by vm_compute on the tables regenerated from the tree on every run. "
     "Tied to the code by a differential run of the extracted model against RpcErrorToNative, TryExpandError, fmt.Sprintf and tryToProcessErr.",
-    "DESIGN.md section 8 (C17)",
+    "DESIGN.md section 8 (C17: plan) and section 11.4 / 11.6 (as built)",
     "Trusted: Coq kernel; extraction + OCaml driver; Go harness; the verif export of the tables. strconv.Atoi and the one-operand fmt.Sprintf subset are re-implemented in "
     "Gallina and compared, not proved. The live reconnect-and-repeat half of PHONE_MIGRATE is run against two in-process servers (scenarios in child processes, forced "
-    "orders through the yield hook) and compared with the extracted decision function; calls in flight on the old connection wait for their own answers (recorded in evidence).",
+    "orders through the yield hook) and compared with the extracted decision function and, for several callers redirected at once, with the set of outcomes the extracted protocol model allows. Reconnect is assumed to succeed; Go's writer preference on RWMutex is not modelled (it only removes interleavings).",
     "machine-checked proof in Coq + regenerated tables + model/implementation correspondence")
 
 CLAIMED["C01"] = ("proof",
     "Registry-generic Gallina model of the reflection encoder/decoder (TL/Types.v, TL/Codec.v) with the round-trip theorem decode(encode v) = norm v for every well-formed "
-    "type universe and every well-typed value (TL/RoundTrip.v), instantiated on the type universe regenerated from the tree by reflection on every run (Inst/C01i.v: every "
-    "struct descriptor well-formed, every constructor registered under its own id). Tied to the code by running tl.Marshal / tl.Decode / tl.DecodeUnknownObject and the "
+    "type universe and every well-typed value (TL/RoundTrip.v); decode(encode v) = v exactly when v is canonical (TL/Canonical.v: canonical_iff, C01_roundtrip_exact*; a non-canonical value - a bit-flag false beside a present member of its group - cannot come back unchanged, TL carries one bit per group); instantiated on the type universe regenerated from the tree by reflection on every run (Inst/C01i.v: every "
+    "struct descriptor except objects.Null and objects.MsgCopy well-formed, every constructor registered under its own id). msg_container and gzip_packed have hand-written codecs: correspondence only. Tied to the code by running tl.Marshal / tl.Decode / tl.DecodeUnknownObject and the "
     "extracted model on the same values for every type of the universe (all flag-group presence patterns, boundary lengths, extremes), byte for byte.",
-    "DESIGN.md section 8 (C01)",
+    "DESIGN.md section 8 (C01: plan) and section 11.4 / 11.6 (as built)",
     "Trusted: Coq kernel; the reflection translator and value abstraction; extraction + OCaml driver. Values outside the typing predicate (nil mandatory pointers, "
     "oversized big integers) compared by result class only. GzipPacked is decode-only in the library.",
     "machine-checked proof in Coq + regenerated registry + model/implementation correspondence")
@@ -44,18 +44,18 @@ CLAIMED["C15"] = ("proof",
     "decidable np_universe condition (TL/NoPanic.v), that input-linear fuel suffices (TL/Total.v) and that every count passed to an allocation is bounded by the unread input; "
     "np_universe is re-proved on the regenerated registry each run (Inst/C15i.v). Tied to the code by decoding tens of thousands of structure-aware mutants in a child process "
     "under an address-space limit and comparing result classes and values with the extracted model.",
-    "DESIGN.md section 8 (C15)",
+    "DESIGN.md section 8 (C15: plan) and section 11.4 / 11.6 (as built)",
     "Trusted: as C01; compress/gzip is an oracle (Section variable inflate); memory exhaustion is observed through the child's RLIMIT_AS, the theorem bounds the counts. "
     "gzip expansion is exempt by the property.",
     "machine-checked proof in Coq + regenerated registry + fault-enumeration correspondence")
 
 CLAIMED["C12"] = ("proof",
     "Coq theorems over a Gallina model of the file session store (file system as path -> content x mtime, loader cache, JSON+base64 codec, salt as 8 LE bytes, "
-    "filepath.Dir): for every history of Store/Load/Fresh operations and every non-decreasing mtime assignment each Load returns the last stored session (absolute, "
+    "filepath.Dir): for every history of Store/Load/Fresh operations over sessions whose address is valid UTF-8 (session_ok; for other addresses see the known finding and C12_hostname_not_utf8_refuted) on an initially absent file, and every mtime assignment in which a foreign write leaves a time different from the cached one, each Load returns the last stored session (absolute, "
     "relative, bare paths); histories with crashes and restarts refine the reference store; a missing file is not-found; every strict prefix of a written file is an error; "
     "all 2^64 salts round-trip; NewMTProto is `encrypted` with exactly the stored key, salt and address after any Store (resume, partial). Tied to the code by replaying "
     "thousands of random and corpus histories on real files (equal mtimes forced with Chtimes, every crash prefix) and on the extracted model.",
-    "DESIGN.md section 8 (C12)",
+    "DESIGN.md section 8 (C12: plan) and section 11.4 / 11.6 (as built)",
     "Trusted: Coq kernel; extraction + OCaml driver; harness. encoding/json enters as Section hypotheses (round trip, no strict prefix unmarshals) re-checked on the real "
     "library each run; base64 is an executable Gallina implementation proved to meet its hypothesis. Resume is also run live: a client started on a written store sends no plain "
     "frame, its frames open under the stored key and salt, it reconnects after a server close without key exchange (Props/C12m.v states the pure decision).",
@@ -67,7 +67,7 @@ CLAIMED["C18"] = ("proof",
     "A is the 256-byte g^a; empty password gives the no-password answer; an answer is produced iff 0 < B < p and 248 <= len <= 256; no panic. Wrong-password rejection is "
     "proved only under explicit SHA-256 injectivity hypotheses on the compared strings (partial; unconditional rejection is a cryptographic claim). Tied to the code by "
     "exchanges against an independent math/big reference server and the extracted model (small groups fully computed, 2048-bit groups with a modexp oracle table).",
-    "DESIGN.md section 8 (C18)",
+    "DESIGN.md section 8 (C18: plan) and section 11.4 / 11.6 (as built)",
     "Trusted: Coq kernel; extraction + OCaml driver; harness incl. its reference server; SHA-256 (Gallina, FIPS KATs) and big.Int.Exp = Z.pow mod (Section hypotheses); PBKDF2 always an oracle.",
     "machine-checked proof in Coq + correspondence against a reference SRP server")
 
@@ -76,7 +76,7 @@ CLAIMED["C02"] = ("proof",
     "128/256-bit integers, length-prefixed aligned strings) driven by the schema text parsed inside Coq (TL/TLText.v), and the theorem that the encoder model produces exactly "
     "those bytes for every value whose constructors match their schema lines, and conversely (TL/SpecProofs.v); strings of 2^24 bytes and more are refused. Tied to the code by "
     "marshalling values of every schema-defined constructor with the implementation and serialising their abstraction with the extracted spec: bytes must be identical, and decode back.",
-    "DESIGN.md section 8 (C02)",
+    "DESIGN.md section 8 (C02: plan) and section 11.4 / 11.6 (as built)",
     "Trusted: as C01 plus the verbatim schema embedding. The spec covers the TL subset the two schema files use.",
     "machine-checked proof in Coq + schema text parsed in Coq + byte-level correspondence")
 
@@ -86,7 +86,7 @@ CLAIMED["C13"] = ("proof",
     "by all constructors), nothing else registered, wrappers carry their lines' ids - with its declarative reading proved (TL/MatchProofs.v) and evaluated by the kernel on the "
     "registry and schema text regenerated from the tree on every run (Inst/C13i.v). Values of every schema-defined constructor are additionally marshalled and compared with the "
     "schema-defined bytes to turn a mismatch into a concrete input.",
-    "DESIGN.md section 8 (C13)",
+    "DESIGN.md section 8 (C13: plan) and section 11.4 / 11.6 (as built)",
     "Trusted: reflection translator, schema embedding, Telethon's canonical-line rule for CRC-32. The 343 generated client methods and 3 wrappers are called end to end against "
     "the in-process reference server on every run (request bytes = the extracted schema serialisation of the function applied to distinguishable arguments, constructor id, "
     "returned value and kind): a correspondence against the Coq spec, not a theorem about Go source. Five registered types absent from the schema are a known finding.",
@@ -98,7 +98,7 @@ CLAIMED["C03"] = ("proof",
     "packet to exactly those fields with fewer than 16 padding bytes, and the client opens every server-sealed packet; byte offsets of key id / msg_key / ciphertext; key "
     "schedule for x = 0 and x = 8; unencrypted messages. SHA-1 and IGE are universally quantified functions with three stated premises. Tied to the code by byte-exact "
     "comparison with the extracted model (Gallina SHA-1/AES) and an independent crypto/aes+crypto/sha1 reference.",
-    "DESIGN.md section 8 (C03)",
+    "DESIGN.md section 8 (C03: plan) and section 11.4 / 11.6 (as built)",
     "Trusted: Coq kernel; extraction; harness incl. its reference envelope. Premises about SHA-1 (20 bytes) and IGE (length preserved, decryption inverts encryption on aligned "
     "data), the latter two derived for textbook IGE over any inverting block cipher; AES itself enters only through them and through FIPS known-answer Examples.",
     "machine-checked proof in Coq + byte-level correspondence (both directions)")
@@ -109,7 +109,7 @@ CLAIMED["C04"] = ("proof",
     "accepted packet carrying the msg_key of a sealed message is that message under an explicit no-collision hypothesis on the two strings involved (partial: 'every altered "
     "packet is refused' needs an idealised hash). Tied to the code by fault enumeration on valid packets (every bit flip of short packets, every truncation, garbage under the "
     "right key id, hostile declared lengths re-sealed with the key incl. lengths congruent mod 2^8/2^16/2^24, packets re-sealed under a wrong msg_key, cancelling multi-byte alterations of key id and msg_key, short and nil keys, call sequences keeping earlier results) with outcome classes compared against the extracted model.",
-    "DESIGN.md section 8 (C04)",
+    "DESIGN.md section 8 (C04: plan) and section 11.4 / 11.6 (as built)",
     "Trusted: as C03. MTProto 1.0 does not authenticate padding: a flip that only garbles plaintext padding is accepted with the identical message (counted in the evidence).",
     "machine-checked proof in Coq + fault-enumeration correspondence")
 
@@ -117,10 +117,10 @@ CLAIMED["C14"] = ("proof",
     "Gallina models of the tlparser cursor/line parser (with Go's UTF-8 decoding and explicit bounds panics) and of tlgen's classification/emission as descriptors; theorems: "
     "parse (print s) = Ok s for every schema of the documented subset (wf_schema), the parser never panics on any byte string, the emitted layout is exactly the schema's "
     "(both directions: every constructor/function with its id, fields in order with kind, vector marker, flag bit, FlagIndex at the flags word; nothing else), the output is "
-    "independent of map iteration order, the generator is total on well-formed input; the shipped api_121.tl is accepted (vm_compute on the text embedded each run). Tied to the "
+    "independent of map iteration order (for schemas whose declared names are unique: names_ok), every declared top-level name is declared once (C14_declared_once), the j-th positional argument of a generated method lands in the field of the j-th non-flags parameter (C14_argument_map), the parser terminates on every input (C14_parse_terminates), the generator is total on well-formed input; the shipped api_121.tl is accepted (vm_compute on the text embedded each run). Tied to the "
     "code by running ParseSchema and the extracted parser on shipped, random and malformed schemas, and by compiling the real tlgen output per schema, reflecting the compiled "
     "package and comparing with the model's descriptors; generation is run twice and byte-compared.",
-    "DESIGN.md section 8 (C14)",
+    "DESIGN.md section 8 (C14: plan) and section 11.4 / 11.6 (as built)",
     "Trusted: Coq kernel; extraction; harness incl. the reflection program template. strcase name mangling (goify) and sort.Slice/sort.Strings are Section variables "
     "(oracle table / sorted-permutation hypothesis). Parser termination on arbitrary input is proved (fuel length+2 suffices; proving it exposed two real hangs of ParseSchema, "
     "since fixed). 'The generated package compiles' is established by compiling, per schema.",
@@ -133,7 +133,7 @@ CLAIMED["C08"] = ("proof",
     "byte-exact headers incl. the 126/127-word boundary; a four-byte frame is surfaced as the signed 32-bit code it carries; end of stream is EOF, never a message. Tied to the "
     "code over a real loopback TCP connection owned by transport.NewTCP, the harness feeding the stream chunk by chunk behind a kernel-level barrier (all compositions of streams "
     "up to 14 bytes, 1-byte-at-a-time, random cuts, messages up to 2^20 bytes).",
-    "DESIGN.md section 8 (C08)",
+    "DESIGN.md section 8 (C08: plan) and section 11.4 / 11.6 (as built)",
     "Trusted: Coq kernel; extraction; harness incl. its ioctl barrier (self-validated each run); io.ReadFull / net.TCPConn.Read semantics as modelled; in-order loopback delivery. "
     "Mid-frame close is outside the property.",
     "machine-checked proof in Coq + correspondence over real loopback TCP under chosen segmentations")
@@ -146,7 +146,7 @@ CLAIMED["C05"] = ("proof",
     "own output (explicit SHA-1 no-collision hypothesis on the payload and its <=15 padded extensions). Generic versions take the block cipher as Section variables; instances "
     "with the Gallina AES (decrypts what it encrypts: proved, Prim/Aes256Inv.v) and SHA-1. Tied to the code through the verif export of the unexported loops, buffers compared "
     "before/after.",
-    "DESIGN.md section 8 (C05)",
+    "DESIGN.md section 8 (C05: plan) and section 11.4 / 11.6 (as built)",
     "Trusted: Coq kernel; extraction; harness with its independent textbook IGE and key formula. crypto/aes = Gallina AES is validated by FIPS-197 known answers and by the "
     "correspondence, not proved. Modelling limits: in/out do not overlap; slice length = capacity.",
     "machine-checked proof in Coq + byte-level correspondence")
@@ -157,7 +157,7 @@ CLAIMED["C09"] = ("proof",
     "completed call returned the value dispatched for its own, unique msg_id, which is the body of a frame the server injected; vector values only for calls that declared hints. "
     "Tied to the code by trace validation: the real client built with -tags verif runs under a controlled scheduler (yield hooks at the model's step boundaries) against the "
     "in-process reference server; every observed trace must be accepted by the extracted step with equal projections; direct oracles for wrong answers, process death, stalls.",
-    "DESIGN.md section 8 (C09-C11, C16)",
+    "DESIGN.md section 8 (C09-C11, C16: plan) and section 11.4 / 11.6 (as built)",
     "Trusted: Coq kernel; extraction; harness (scheduler csched, refserver, trace recorder). Blocks between yield points are taken as atomic (shared state is only touched under "
     "the send lock or through mutex-protected tables). Fairness and real time-outs assumed; the pinger and the 65 s read deadline are outside the histories.",
     "machine-checked invariants in Coq over all interleavings + trace validation of the real client")
@@ -167,7 +167,7 @@ CLAIMED["C10"] = ("proof",
     "even ones, seq_no never decreases (below 2^30 messages), and every received content-related message, alone or inside a container, is followed by a msgs_ack naming it - also when processing the message failed (no side condition since fix 95e782e); the id generator yields a larger id for EVERY clock sequence (C10_id_generator); the parity of a seq_no is the low bit of its 32-bit pattern - as "
     "invariants proved for one step and lifted over arbitrary label lists. Tied to the code as C09 (traces replayed through the extracted step; direct oracles for id order, "
     "divisibility, clock window, parity, monotonicity, missing acks; clock regimes incl. a clock behind the last id, lock probes, the write as a step boundary, server ids and seq_nos over the full 64/32-bit range).",
-    "DESIGN.md section 8 (C09-C11, C16)",
+    "DESIGN.md section 8 (C09-C11, C16: plan) and section 11.4 / 11.6 (as built)",
     "Trusted: as C09. 'Derived from the current time' is checked by the harness's clock-window oracle; in the model the clock reading is an arbitrary label parameter.",
     "machine-checked invariants in Coq over all interleavings + trace validation of the real client")
 
@@ -177,7 +177,7 @@ CLAIMED["C19"] = ("proof",
     "applied to the value-flow graph that a translator regenerates from the current source with go/ssa on every run (Inst/C19i.v by vm_compute). When the instance breaks the "
     "check prints the offending path (file:line per node) and a dynamic witness against the real code (identical values after identical math/rand.Seed; the DH exponent "
     "recovered from a clock reading); the dynamic probe also runs when the proof passes, as a cross-check of the translator.",
-    "DESIGN.md section 8 (C19)",
+    "DESIGN.md section 8 (C19: plan) and section 11.4 / 11.6 (as built)",
     "Trusted: Coq kernel; the translator harness/flowgraph (node/edge construction over SSA, CHA call graph, classification of packages by import path, ~60 leaf contracts for "
     "std-lib functions that do not write their arguments, the four anchors). Over-approximate except three documented gaps (references parked in slice/map elements, "
     "reflect/unsafe writes, control dependence).",
@@ -185,12 +185,12 @@ CLAIMED["C19"] = ("proof",
 
 CLAIMED["C06"] = ("proof",
     "Gallina model of makeAuthKey byte for byte (every fixed-width conversion, RSA block layout, salt xor, new_nonce_hash1) and of a conformant server written from the MTProto "
-    "key-exchange specification; C06_agreement: for ALL client draws and ALL conformant server parameters the run ends Success, both sides hold the same 256-byte key, key id and "
-    "salt, the server accepts every client frame, exactly one session save happens and any first encrypted request opens on the server (link to C03). RSA/DH through a modexp "
+    "key-exchange specification; C06_agreement: for ALL well-formed client draws (draws_ok: field widths) and ALL conformant server parameters the run ends Success, both sides hold the same 256-byte key, key id and "
+    "salt, the server accepts every client frame, exactly one session save happens and any first encrypted request opens on the server (link to C03; under the two IGE premises of C03). RSA/DH through a modexp "
     "Section variable with the Z.pow laws; SHA-1/AES via the C05/C03 interfaces; instance with the Gallina primitives. Tied to the code by running the real CreateConnection "
     "against an in-process handshake server with the client's crypto/rand draws scripted, incl. the 24 forced leading-zero corners, comparing outcome, every plain frame, key, "
     "id, salt on both sides, the session file and the first encrypted packet with the extracted model.",
-    "DESIGN.md section 8 (C06)",
+    "DESIGN.md section 8 (C06: plan) and section 11.4 / 11.6 (as built)",
     "Trusted: Coq kernel; extraction; harness incl. hsserver. Partial: Pollard-rho SplitPQ termination is probabilistic and not proved (premise split pq <> None; whenever the loop "
     "model returns its result is the ordered factorisation); explicit SHA-1 no-collision premise on the server's answer and its <=15 padded extensions; rsa_pair (decryption "
     "inverts encryption) is part of the definition of a conformant server; ProbablyPrime soundness below 2^64 is a premise; 2048-bit Exp results enter as per-case oracle tables.",
@@ -199,11 +199,11 @@ CLAIMED["C06"] = ("proof",
 CLAIMED["C07"] = ("proof",
     "Same model with the server an ARBITRARY environment (history of sent frames -> next reply): Success implies every nonce echo was equal, a fingerprint matched, the decrypted "
     "answer was SHA1(answer) ++ answer ++ (<16 bytes), the inner data echoed both nonces, new_nonce_hash1 is correct at fixed width and the reply constructors were resPQ, "
-    "server_DH_params_ok, dh_gen_ok; not Success implies every effect is a plain send (no Save, no encrypted send); makeAuthKey never panics. Tied to the code by hundreds of "
+    "server_DH_params_ok, dh_gen_ok; not Success implies every effect is a plain send (no Save, no encrypted send) and no Save can follow an abort whatever arrives afterwards (C07_abort_stays_clean); whenever the server answers each request with something - a reply, an unreadable body, a transport error code, a close - the run ends Success or with an error, never stalled (C07_error_unless_silent); makeAuthKey never panics (seven premises on the library functions, discharged for the Gallina primitives in C07_no_panic_inst). Tied to the code by hundreds of "
     "single-fault scripts (every reply field x bit flip / random / other nonce / zero x alternative constructors, padding and length faults) run against the real client in child "
     "processes under a watchdog: verdict, session store and frames compared with the extracted model.",
-    "DESIGN.md section 8 (C07)",
-    "Trusted: as C06. Outside the model (C16's area): malformed bodies of handshake constructors decoded by the generic TL decoder, rpc_error replies during the exchange.",
+    "DESIGN.md section 8 (C07: plan) and section 11.4 / 11.6 (as built)",
+    "Trusted: as C06. After every aborted and every successful exchange the scripted server keeps talking (unencrypted new_session_created / bad_server_salt / rpc_result / container / garbage): store calls counted, client state read back.",
     "machine-checked proof in Coq + fault-injection correspondence")
 
 CLAIMED["C11"] = ("proof",
@@ -212,17 +212,17 @@ CLAIMED["C11"] = ("proof",
     "was rejected by a bad_server_salt naming exactly its id, and then under the new salt; no id is retried twice; accepted requests are never re-sent; every completed call returned "
     "the result for its newest non-rejected id; every table entry has a live owner so each send of the receive loop is eventually enabled (no stall); new_session_created adopts and "
     "saves. Tied to the code by trace validation of the real client (controlled scheduler + reference server, fresh and resumed sessions) through the extracted step2.",
-    "DESIGN.md section 8 (C09-C11, C16)",
+    "DESIGN.md section 8 (C09-C11, C16: plan) and section 11.4 / 11.6 (as built)",
     "Trusted: as C09 plus cmd/c11 (keyex front for fresh sessions). Fairness and real time-outs assumed; pinger and read deadline outside the histories.",
     "machine-checked invariants in Coq over all histories + trace validation of the real client")
 
 CLAIMED["C16"] = ("proof",
     "Same extended system (Client/Live.v, Alive.v): for every server history over the alphabet (every service constructor, arbitrary API objects as updates, rpc_result for unknown "
     "or already answered ids, unregistered ids, truncated bodies, nested/empty containers, transport error frames, orderly close between messages) the receive loop never reaches "
-    "RDead and from every reachable state a probe call has a schedule of client-only steps to completion; after a close the client reconnects with the same key: no key exchange, "
-    "no plain frame (plain_out = 3*keyex, keyex <= 1, 0 for a loaded session); step2 is conservative over the C09/C10 system. Tied to the code by histories run against the real "
-    "client in supervised child processes (death = exit status, stall = watchdog + goroutine dump), Warnings channel nil / buffered / full, handler or none, followed by a probe.",
-    "DESIGN.md section 8 (C09-C11, C16)",
+    "RDead and from every reachable keyed state with an idle caller a probe call has a schedule of client-only steps to completion; after a close the client reconnects with the same key: no key exchange, "
+    "no plain frame (plain_out = 3*keyex, keyex <= 1, 0 for a loaded session); step2 is conservative over the C09/C10 system; every item of a container is dispatched whatever the others do (C16_every_item_dispatched). Tied to the code by histories run against the real "
+    "client in supervised child processes (death = exit status, stall = watchdog + goroutine dump), Warnings channel nil / buffered / full / live reader, handler accepting / declining / none, followed by a probe; every registered constructor and enum id of the tree is sent as an update.",
+    "DESIGN.md section 8 (C09-C11, C16: plan) and section 11.4 / 11.6 (as built)",
     "Trusted: as C11. Abortive closes (RST) and writes racing a close are outside the alphabet; a persistent non-EOF I/O error makes the loop warn on every read (it used to panic).",
     "machine-checked invariants in Coq over all server histories + supervised runs of the real client")
 
